@@ -525,6 +525,37 @@ pub fn grid_blackboard<S: Service>(config: &iceoryx2::config::Config, tag: u64) 
     c!("as event", node2.service_builder(&sname).event().open(), Err(_));
     c!("second create", node2.service_builder(&sname).blackboard_creator::<u64>().add::<u32>(1, 0).create(), Err(BlackboardCreateError::AlreadyExists));
     c!("create without entries", node2.service_builder(&format!("{}x", name).as_str().try_into().unwrap()).blackboard_creator::<u64>().create(), Err(BlackboardCreateError::NoEntriesProvided));
+    // a creation that fails half-way (after the static config was written) must leave nothing: the name stays free
+    {
+        let fname = format!("{}f", name);
+        let fsn: ServiceName = fname.as_str().try_into().unwrap();
+        let r = node2.service_builder(&fsn).blackboard_creator::<u64>().add::<u32>(5, 1).add::<u32>(5, 2).create();
+        cases += 1;
+        if r.is_ok() {
+            bad.push(("wrong_create_result".into(), "a blackboard with the same key twice was created".into()));
+        }
+        drop(r);
+        let exists = S::does_exist(&fsn, config, MessagingPattern::Blackboard);
+        if exists != Ok(false) {
+            bad.push(("failed_creation_left_a_service".into(), format!("after a failed create (duplicate key) does_exist = {:?}", exists)));
+        }
+        match node2.service_builder(&fsn).blackboard_opener::<u64>().open() {
+            Err(E::DoesNotExist) => {}
+            other => bad.push(("failed_creation_left_a_service".into(), format!("after a failed create, open answers {:?} instead of DoesNotExist", other.as_ref().map(|_| "Ok").map_err(|e| format!("{:?}", e))))),
+        }
+        match node2.service_builder(&fsn).blackboard_creator::<u64>().max_readers(7).add::<u32>(5, 3).create() {
+            Ok(svc) => {
+                if svc.static_config().max_readers() != 7 {
+                    bad.push(("stale_settings_after_recreation".into(), "the service created after a failed creation shows other settings".into()));
+                }
+            }
+            Err(e) => bad.push(("name_not_reusable".into(), format!("after a failed create (duplicate key) the name cannot be created: {:?}", e))),
+        }
+        let exists = S::does_exist(&fsn, config, MessagingPattern::Blackboard);
+        if exists != Ok(false) {
+            bad.push(("service_outlives_last_user".into(), format!("does_exist = {:?} after the only handle was dropped", exists)));
+        }
+    }
     (cases, bad)
 }
 
